@@ -84,6 +84,7 @@ ASSUMPTIONS = [
     "default orphan policy (transform.orphan_policy=conflict); case-sensitive POSIX file system with symlinks and executable bits",
 ]
 TRUSTED = [
+    "git: the order of 'versioning no contents' conflicts (a Python set) is not compared",
     "the disk is modelled as an inode table (directory entry + node per trans-id): a directory rename carries its children; limbo naming, stat caching and observed sha1s are not modelled",
     "children sets of by_parent() are iterated in trans-id order in the model (Python iterates them in hash order)",
 ]
@@ -251,7 +252,7 @@ def gen_ops(rng, entries, n, fmt):
         return s["versioned"] and not s.get("unversioned")
 
     def newfid(p):
-        if not live_versioned(p) or rng.random() < 0.25:
+        if not live_versioned(p) or st[p].get("missing") or rng.random() < 0.25:
             return None
         if fmt != "git" and rng.random() < 0.08:
             # the file id of an existing tree entry (a non-directory without children in the transform,
@@ -271,6 +272,8 @@ def gen_ops(rng, entries, n, fmt):
             if s["new"] and s["kind"] != "directory":
                 continue
             if s.get("missing") and not s.get("created"):
+                if s["versioned"]:
+                    continue
                 w = 1
             elif s["kind"] == "directory":
                 w = 8 if not s.get("deleted") else 2
@@ -362,7 +365,8 @@ def gen_ops(rng, entries, n, fmt):
             c = [i for i in tree_live() if not st[i]["versioned"] and live_versioned(st[i]["parent"])
                  and not (st[i]["kind"] != "directory" and st[i].get("haskids"))]
             if rng.random() < 0.15:   # ... or something without contents ("versioning no contents")
-                c = [i for i, s in st.items() if s.get("missing") and not s.get("created") and not s["versioned"] and live_versioned(s["parent"])]
+                c = [i for i, s in st.items() if s.get("missing") and not s.get("created") and not s["versioned"]
+                     and not s.get("haskids") and live_versioned(s["parent"])]
             if not c:
                 continue
             i = rng.choice(c)
@@ -903,14 +907,16 @@ def check_case(ctx, case, res, reply, flags):
             ctx.mismatch(cid, "(see real)", m["raw"], tie="T2 model reply")
             return
         if stream == "wild":
-            impl = "%s %s" % (res.get("oplog"), res.get("conf0", "-") if res.get("oplog") == "ok" else "-")
-            mod = "%s %s" % (m["oplog"], m["conf0"] if m["oplog"] == "ok" else "-")
+            impl = "%s %s" % (res.get("oplog"), _canon_conf(fmt, res.get("conf0", "-")) if res.get("oplog") == "ok" else "-")
+            mod = "%s %s" % (m["oplog"], _canon_conf(fmt, m["conf0"]) if m["oplog"] == "ok" else "-")
             ctx.traces += 1
             if impl != mod and not (impl.startswith("E:") and mod.startswith("E:") and _err_equiv(impl, mod)):
                 ctx.mismatch(cid, impl, mod, tie="T2 wild accept/reject + conflicts")
         else:
-            impl = "%s %s %s" % (res.get("oplog"), res.get("conf0", "-"), res.get("resolve", "-"))
-            mod = "%s %s %s" % (m["oplog"], m["conf0"], m["resolve"])
+            def _cr(r):
+                return "malformed:" + _canon_conf(fmt, r[10:]) if r.startswith("malformed:") else r
+            impl = "%s %s %s" % (res.get("oplog"), _canon_conf(fmt, res.get("conf0", "-")), _cr(res.get("resolve", "-")))
+            mod = "%s %s %s" % (m["oplog"], _canon_conf(fmt, m["conf0"]), _cr(m["resolve"]))
             ctx.traces += 1
             if impl != mod:
                 ctx.mismatch(cid, impl, mod, tie="T2 ops/conflicts/resolution")
@@ -986,6 +992,23 @@ def check_case(ctx, case, res, reply, flags):
         ctx.count("discrepancy:%s" % (fam or "unclassified"))
         ctx.violation(cid, "preview tree and applied tree differ at %r: %s preview=%r applied=%r"
                       % (d[0], d[1], d[2], d[3]), family=fam)
+
+
+def _canon_conf(fmt, s):
+    """git keeps `_versioned` in a set: the "versioning no contents" conflicts come in hash order"""
+    if fmt != "git" or s in ("-", None) or s.startswith("E:"):
+        return s
+    items = s.split(",")
+    out, run = [], []
+    for it in items + [None]:
+        if it is not None and it.startswith("vn:"):
+            run.append(it)
+            continue
+        out += sorted(run)
+        run = []
+        if it is not None:
+            out.append(it)
+    return ",".join(out)
 
 
 def _err_equiv(a, b):
